@@ -129,9 +129,27 @@ def h_plain(depth, maxlen):
         c.check('agrees-with-==-on-NaN-free-plain-values', r == (True if x == y else False))
     return h
 
+def h_dict_order(cls, nested):
+    """two dicts with the same keys inserted in different orders: values are paired by key (agrees with ==; equals its own re-ordered copy)"""
+    def h(c):
+        E = _E(); floats = []
+        kinds = ['none', 'int', 'str']
+        mk = (lambda n: [V.scalar(c, n, kinds, strs = ['a', 'B'])]) if nested else (lambda n: V.scalar(c, n, kinds, strs = ['a', 'B']))
+        x = cls(); x['a'] = mk('x.a'); x['b'] = mk('x.b')
+        y = cls(); y['b'] = mk('y.b'); y['a'] = mk('y.a')
+        r = True if E.eq(x, y) else False; r2 = True if E.eq(y, x) else False
+        c.check('dict-values-are-paired-by-key-whatever-the-insertion-order', r == (True if x == y else False) and r2 == r)
+        z = cls(); z['b'] = x['b']; z['a'] = x['a']
+        c.check('equals-its-own-copy-with-another-key-order', (True if E.eq(x, z) else False) and (True if E.eq(z, x) else False))
+    return h
+
 def obligations(tier):
     q = tier == 'quick'
     obs = []
+    for cls in (dict, MyDict):
+        for nested in (False, True):
+            obs.append(Ob('dict-key-order.%s%s' % (cls.__name__.lower(), '.nested' if nested else ''), h_dict_order(cls, nested), setup = setup, budget_s = 300,
+                          desc = 'eq on two %ss with the same keys in different insertion orders pairs the values by key%s' % (cls.__name__, ' (values are one-element lists)' if nested else '')))
     shapes0 = ['scalar', 'list', 'tuple', 'dict', 'mydict', 'np']
     for i, sx in enumerate(shapes0):
         for j, sy in enumerate(shapes0):
